@@ -547,7 +547,7 @@ def struct_stats(rows):
         facts_n["scope"] += 1 if _head(schema) == "scope" else 0
         for s in set(f["structs"]):
             structs[s] = structs.get(s, 0) + 1
-        oo = _obs_ops(obs)
+        oo = _obs_ops(re.sub(r"^\(obs \S+ (.*)\)$", r"\1", obs))     # the statistics rows carry the whole (obs ID ...) line
         h = hashlib.sha1(re.sub(r"^\(case \S+ ", "", case).encode()).digest()
         new = h not in distinct
         distinct.add(h)
